@@ -258,14 +258,30 @@ partial def loop (h : IO.FS.Stream) (d : DS) : IO Unit := do
       let d := stepsE (newE d { id, c := mk .add, unix := typ == "unix" } .add) id [.addCheck, .addP, .addOpen, .addTable, .addReg]
       say d "add" "nil" (some id)
     | ["addc", id, typ] =>
-      -- the open notification closes the conn; addConn carries on: table, then a registration that fails (EBADF)
+      -- the open notification closes the conn; addConn's second critical section finds the flag: refused
       let id := id.toNat!
       if (d.get id).isSome || !(typ == "tcp" || typ == "unix") then bad else
       let d := stepsE (newE d { id, c := mk .add, unix := typ == "unix" } .add) id [.addCheck, .addP, .addOpen]
       let d := closeE d id .nil
-      let d := stepsE d id [.addTable, .addReg]
+      let d := stepE d id .addTable
       match d.get id with
-      | some e => say d "addc" (if e.c.reg then "nil" else "ebadf") (some id)
+      | some e =>
+        if e.c.add == 4 then say (stepE d id .addReg) "addc" "nil" (some id)
+        else say d "addc" "closed" (some id)
+      | none => bad
+    | ["addcr", id, id2] =>
+      -- … and meanwhile another conn got the released descriptor number and was added: two independent conns
+      let id := id.toNat!
+      let id2 := id2.toNat!
+      if (d.get id).isSome || (d.get id2).isSome || id == id2 then bad else
+      let d := stepsE (newE d { id, c := mk .add } .add) id [.addCheck, .addP, .addOpen]
+      let d := closeE d id .nil
+      let d := stepsE (newE d { id := id2, c := mk .add } .add) id2 [.addCheck, .addP, .addOpen, .addTable, .addReg]
+      let d := stepE d id .addTable
+      match d.get id with
+      | some e =>
+        if e.c.add == 4 then say (stepE d id .addReg) "addcr" "nil" (some id2)
+        else say d "addcr" "closed" (some id2)
       | none => bad
     | ["addx", id, typ] =>
       -- Close (nobody manages the conn: no notification), then AddConn: refused by its closed test
